@@ -249,4 +249,7 @@ func TestVerifC19HS(t *testing.T) {
 	for r := 0; r < rounds; r++ {
 		h.round(r)
 	}
+	for typ, n := range w.Malleable {
+		out.CoverN(fmt.Sprintf("altered_signature_bytes_still_verify_keytype_%d", typ), int64(n))
+	}
 }
